@@ -108,6 +108,7 @@ impl Scenario for Pipe {
     Arc::new(move || {
       reset_live();
       let sh = Shared::new();
+      set_current(Some(sh.clone()));
       sh.lock().hook = Some(Arc::new(|s: &str| {
         facade::log("h", 0, "", format!("{}@{}", s, facade::now()));
       }));
@@ -147,6 +148,7 @@ impl Scenario for Pipe {
       // instrumented sources record into `sh`, so a named observable inside `sh` would keep `sh` alive (a cycle of the
       // harness's own making) if the environment were not emptied explicitly
       let _ = step(&sh, &Sexp::List(vec![Sexp::Atom("drop".into())]));
+      set_current(None);
       drop(sh);
       facade::set_logging(true);
       // C17: every subscription has ended and every handle of the harness is gone: what is still alive is owned by
